@@ -113,7 +113,8 @@ def effect (i : Instr) : Eff :=
   | "Throw" | "ReThrow" | "ThrowNewTypeError" | "ThrowNewReferenceError" | "ThrowMutateImmutable" | "DeleteSuperThrow" => { flow := .stop }
   | "Move" | "StoreZero" | "StoreOne" | "StoreInt8" | "StoreInt16" | "StoreInt32" | "StoreFloat" | "StoreDouble" | "StoreNan"
   | "StorePositiveInfinity" | "StoreNegativeInfinity" | "StoreNull" | "StoreTrue" | "StoreFalse" | "StoreUndefined"
-  | "SetAccumulator" | "SetRegisterFromAccumulator" | "IncrementLoopIteration" | "Exception" => { throws := i.op == "IncrementLoopIteration" }
+  | "SetAccumulator" | "SetRegisterFromAccumulator" => { throws := false }
+  -- `Exception` re-throws when there is no pending exception (generator `return()` running the finally blocks)
   | _ => { }
 
 /-- innermost handler covering `pc`: the LAST table entry whose range contains it (`CodeBlock::find_handler`) -/
